@@ -64,6 +64,9 @@ register('C18', 'TLA+ Solve spec integrality gate model-checked; nc behaviours r
 register('C14', 'TLA+ GlobalCaches spec (two LRUs, capacity 2, name-equal leaves, parameter bypass) model-checked; every cache-operation history replayed on two same-named models with real-capacity fillers; fresh-process reference',
          'C14_NoCrossTalk is model-checked exhaustively on GlobalCaches.tla (the as-coded instance without the parameter bypass violates it: selftest); every history of the model is replayed on two real models sharing the names p and x with different values / bounds / structure, with fillers overflowing the real capacities (1024 / 4096); each callable must read its own model\'s parameter and the final observations on M must equal those computed in a fresh interpreter process.',
          'Trusted: TLC; the abstraction of GlobalCaches.tla (which artefacts depend on object state); the fresh-process reference run; SciPy for the two reference solves.', 'DESIGN.md 3 (C14)')
+register('C19', 'TLA+ Ext spec (IEEE-style extended arithmetic) classifies every derivative entry of TLC-enumerated programs at points on singular sets; derivative callables on all paths checked against the classes',
+         'For every enumerated expression TLC evaluates value, gradient and Hessian entries with the extended arithmetic of Ext.tla (rationals, +-inf, NaN, opaque finite values with sign) at every point placing 0 / 1 / -1 on one or all coordinates; compile_gradient, compile_jacobian, CompiledExpression.gradient and compile_hessian must be finite, agree with each other, keep regular entries unchanged and, for the atomic cases the property names, return 0 / +-1e16 with the derived sign.',
+         API_NOTE + ' Zeros are unsigned in Ext.tla; entries whose class is an infinity of unknown sign are only required to have magnitude 1e16.', 'DESIGN.md 3 (C19)')
 
 ALL = ['C%02d' % i for i in range(1, 21)]
 
